@@ -8,6 +8,7 @@ import (
 	"fmt"
 	"github.com/attestantio/go-eth2-client/api"
 	"github.com/attestantio/vouch/services/beaconblockproposer"
+	"time"
 
 	apiv1 "github.com/attestantio/go-eth2-client/api/v1"
 	"github.com/attestantio/go-eth2-client/spec/phase0"
@@ -222,6 +223,70 @@ func VerifC20_SubscriptionInfosBounded() {
 		vnd.Assert(k+1 >= epoch, "C20.subscriptions.nothing-older-than-previous-epoch-after-a-head-event")
 	}
 	vnd.Cover("C20.subscriptions.checked")
+}
+
+// VerifC03_HeadEventFastTrack: a head event for the current slot with fast
+// tracking of attestations on (vouch's default), the slot's attestation job
+// still waiting, a positive grace period. If the event shows that the attester
+// duties of the current epoch changed (previous duty dependent root), the job
+// from before the change is withdrawn before anything is started early: what is
+// fast-tracked is never the stale job. Without such a change the waiting job is
+// started early.
+func VerifC03_HeadEventFastTrack() {
+	vstub.SPEChoices = []uint64{4}
+	e := newCtlEnv()
+	e.s.validatingAccountsProvider = &hValidating{}
+	e.s.proposerDutiesProvider = &hPropDuties{fail: true}
+	e.s.beaconCommitteeSubscriber = &hSubscriber{}
+	e.s.epochsPerSyncCommitteePeriod = 256
+	e.s.fastTrackAttestations = true
+	e.s.fastTrackGrace = time.Duration(vnd.I64("fast-track.grace"))
+	vnd.Assume(e.s.fastTrackGrace > 0 && e.s.fastTrackGrace < time.Second)
+	cur := uint64(e.ct.Cur)
+	vnd.Assume(cur >= 8 && cur < 1<<30)
+	curEpoch := cur / e.ct.SPE
+	// what the controller remembers from the last head event of this epoch
+	storedPrev, storedCur := phase0.Root(vnd.Root("stored.previous")), phase0.Root(vnd.Root("stored.current"))
+	zero := phase0.Root{}
+	vnd.Assume(storedPrev != zero && storedCur != zero)
+	e.s.lastBlockEpoch = phase0.Epoch(curEpoch)
+	e.s.previousDutyDependentRoot, e.s.currentDutyDependentRoot = storedPrev, storedCur
+	// the current slot's attestation job, set up from the duties known so far, is waiting
+	jobName := fmt.Sprintf("Attestations for slot %d", cur)
+	e.sched.Existing = append(e.sched.Existing, jobName)
+	e.s.pendingAttestations[phase0.Slot(cur)] = true
+	// the duties the beacon node gives after the change: another validator in the current slot, or none there
+	h := &hAttDuties{}
+	if vnd.Bool("refreshed-duties-include-the-current-slot") {
+		h.duties = []*apiv1.AttesterDuty{{Slot: phase0.Slot(cur), ValidatorIndex: 2, CommitteeIndex: 0, CommitteeLength: 8, CommitteesAtSlot: 4}}
+	}
+	e.s.attesterDutiesProvider = h
+	evPrev := storedPrev
+	changed := vnd.Bool("previous-duty-dependent-root-changed")
+	if changed {
+		evPrev = phase0.Root(vnd.Root("event.previous"))
+		vnd.Assume(evPrev != storedPrev)
+	}
+	startedEarly, startedStale := 0, false
+	e.sched.OnRun = func(name string) {
+		if name == jobName {
+			startedEarly++
+			withdrawn := false
+			for _, c := range e.sched.Cancelled {
+				withdrawn = withdrawn || c == jobName
+			}
+			startedStale = startedStale || !withdrawn
+		}
+	}
+	e.s.HandleHeadEvent(&apiv1.Event{Data: &apiv1.HeadEvent{Slot: phase0.Slot(cur), Block: phase0.Root{1}, PreviousDutyDependentRoot: evPrev, CurrentDutyDependentRoot: storedCur}})
+	vnd.Quiesce()
+	if changed {
+		vnd.Cover("C03.fasttrack.duties-changed")
+		vnd.Assert(!startedStale, "C03.fasttrack.job-from-before-the-change-is-withdrawn-not-started-early")
+	} else {
+		vnd.Cover("C03.fasttrack.no-change")
+		vnd.Assert(startedEarly == 1 && startedStale, "C03.fasttrack.waiting-job-started-early")
+	}
 }
 
 type hHeaders struct {
